@@ -355,6 +355,36 @@ func TestC09_Headers(t *testing.T) {
 			}
 			if len(b.Zone().Uncles()) > 0 {
 				withUncles++
+				// the share part of the entropy across the fork boundary: from the fork block on
+				// it is a function of the number of shares only, so the same share list must
+				// weigh the same at the fork block itself, one block later and far later (the
+				// header rules treat the fork block as post-fork: fork fields are demanded at it)
+				var vals []*big.Int
+				ptns := []uint64{params.KawPowForkBlock, params.KawPowForkBlock + 1, params.KawPowForkBlock + 1_000_000}
+				for _, ptn := range ptns {
+					c := types.CopyWorkObject(b.Zone())
+					c.WorkObjectHeader().SetPrimeTerminusNumber(new(big.Int).SetUint64(ptn))
+					var v *big.Int
+					var err error
+					func() {
+						defer func() {
+							if r := recover(); r != nil {
+								err = fmt.Errorf("panic: %v", r)
+							}
+						}()
+						v, err = hcOf(sim.Zone).WorkShareLogEntropy(c)
+					}()
+					if err != nil || v == nil {
+						stats.Violation(t, part, "C09/share-entropy/fork-boundary-error", fmt.Sprintf("block %d (%d shares) re-labelled with prime terminus number %d (fork block %d): share entropy fails: %v", bi, len(b.Zone().Uncles()), ptn, params.KawPowForkBlock, err), dump())
+						return
+					}
+					vals = append(vals, new(big.Int).Set(v))
+				}
+				if vals[0].Cmp(vals[1]) != 0 || vals[1].Cmp(vals[2]) != 0 {
+					stats.Violation(t, part, "C09/share-entropy/differs-across-fork-boundary", fmt.Sprintf("block %d: the same %d shares weigh %v at prime terminus number %d (the fork block), %v at %d and %v at %d", bi, len(b.Zone().Uncles()), vals[0], ptns[0], vals[1], ptns[1], vals[2], ptns[2]), dump())
+					return
+				}
+				stats.Label(part, "share_entropy_at_fork_boundary")
 			}
 			orders[b.Zone().Hash()] = o1
 			entropies[b.Zone().Hash()] = new(big.Int).Set(hcOf(sim.Zone).TotalLogEntropy(b.Zone()))
